@@ -64,6 +64,18 @@ fn durations(tier: Tier) -> Vec<[i64; 10]> {
         [0, 0, 0, 0, 0, 0, 86_400 * 400, 0, 0, 0],
         [300_000, 0, 0, 0, 0, 0, 0, 0, 0, 0],
         [0, 0, 0, 0, 0, 90, 0, 0, 0, 0],
+        // unbalanced time fields under a larger unit (each field at or above its carry threshold, the others in range)
+        [0, 0, 0, 3, 4, 0, 0, 0, 0, 123_456],
+        [0, 0, 0, 0, 0, 0, 12, 250, 0, 48_211],
+        [0, 0, 0, 1, 0, 0, 0, 0, 0, 1000],
+        [0, 0, 0, 1, 0, 0, 0, 0, 999, 1000],
+        [0, 0, 0, 1, 0, 0, 0, 0, 1000, 0],
+        [0, 0, 0, 1, 0, 0, 0, 1000, 0, 0],
+        [0, 0, 0, 1, 0, 0, 60, 0, 0, 0],
+        [0, 0, 0, 1, 0, 60, 0, 0, 0, 0],
+        [0, 0, 0, 0, 1, 0, 0, 0, 0, 5000],
+        [0, 0, 0, 2, 0, 59, 59, 999, 999, 1999],
+        [0, 0, 0, 0, 0, 1, 0, 0, 2500, 0],
     ] {
         v.push(f);
         v.push(f.map(|x: i64| -x));
